@@ -663,7 +663,7 @@ func search(c *enum.Ctx, base kase, depth int, states, trans, traces *atomic.Int
 }
 
 func run(c *enum.Ctx) {
-	c.Rule("initial objects: linear.Seq/QSeq for every letter string of length 0..3 (algebra-only for 4..5) over paired letters {a,c,G,n,-} (and RNA/redundant alphabets on fixed words), alignment.Seq/QSeq grids 1..3 rows x 0..4 columns, multi.Multi with every layout of 1..3 rows (offsets 0..2, lengths 1..3; plain and quality rows), multi.Set; then breadth-first search over operation sequences of depth <=3 (thorough 4; linear 4/5) over {RevComp, Reverse, Clone-and-continue-on-copy, Clone-and-keep, Set first, Set last, SetOffset, Delete row, Append (the letter depends on the step), go-on-with-the-other-copy, RevComp of the first / last row through its row view, Reverse of the first row}; three-row Multi layouts with an empty row; objects all of whose rows lie at offsets of +-2^40 and just around +-2^31; the size ladder 7..4097 (thorough 16385) - every 2^k-1, 2^k, 2^k+1 letters / columns / row length - for every kind under nine fixed operation lists; linear sequences also start emptied (length 0 over storage of two letters); after every operation the object's snapshot (row names, coordinates, strands, letters, qualities) is related to the previous one and every retained clone/original must be unchanged; states de-duplicated on the snapshot of the object plus retained copies (first two levels unmerged); non-trivial = every applicable operation sequence")
+	c.Rule("initial objects: linear.Seq/QSeq for every letter string of length 0..3 (algebra-only for 4..5) over paired letters {a,c,G,n,-} (and RNA/redundant alphabets on fixed words), alignment.Seq/QSeq grids 1..3 rows x 0..4 columns, multi.Multi with every layout of 1..3 rows (offsets 0..2, lengths 1..3; plain and quality rows), multi.Set; then breadth-first search over operation sequences of depth <=3 (thorough 4; linear 4/5) over {RevComp, Reverse, Clone-and-continue-on-copy, Clone-and-keep, Set first, Set last, SetOffset, Delete row, Append (the letter depends on the step), go-on-with-the-other-copy, RevComp of the first / last row through its row view, Reverse of the first row}; three-row Multi layouts with an empty row; objects all of whose rows lie at offsets of +-2^40 and just around +-2^31; the size ladder 7..4097 (thorough 16385) - every 2^k-1, 2^k, 2^k+1 (also 3*2^k, 10^j-1, 10^j, 10^j+1, 5*10^j) letters / columns / row length - for every kind under nine fixed operation lists; linear sequences also start emptied (length 0 over storage of two letters); after every operation the object's snapshot (row names, coordinates, strands, letters, qualities) is related to the previous one and every retained clone/original must be unchanged; states de-duplicated on the snapshot of the object plus retained copies (first two levels unmerged); non-trivial = every applicable operation sequence")
 	c.Assume("column-stored alignments are used at offset 0 (their column accessors take raw indices)", "single Reverse is checked against its documented meaning (letters reversed); Multi row coordinates after Reverse are not constrained")
 	depthLin, depthOther := 4, 3
 	if !c.Quick {
@@ -766,7 +766,7 @@ func run(c *enum.Ctx) {
 			}
 		}
 	}
-	// the size ladder: one object of every kind at every size 2^k-1, 2^k, 2^k+1 (columns of an alignment,
+	// the size ladder: one object of every kind at every size 2^k-1, 2^k, 2^k+1 (also 3*2^k, 10^j-1, 10^j, 10^j+1, 5*10^j) (columns of an alignment,
 	// letters of a sequence, two ragged rows of that length), a handful of fixed operation lists
 	top := 4097
 	if !c.Quick {
